@@ -316,7 +316,8 @@ def ob_lse_range(i: int, j: int) -> bool:
             v = NB._log_sum_exp([a, b])
         except Exception:
             return False
-        return math.isfinite(v) and max(a, b) - 1e-9 <= v <= max(a, b) + math.log(2) + 1e-9
+        hi, lo = max(a, b), min(a, b)
+        return math.isfinite(v) and abs(v - (hi + math.log1p(math.exp(lo - hi)))) <= 1e-9
 
 
 # ------------------------------------------------------------------ C14 at API level
